@@ -1057,7 +1057,7 @@ impl Prop for C14 {
     fn strategy(&self, tier: Tier) -> Option<(BoxedStrategy<Case>, u32)> {
         let s = proptest::collection::vec(item(), 1..=24).prop_map(|items| Case { items }).boxed();
         // ~12.5 calls per case
-        Some((s, tier.pick(2_400, 160_000)))
+        Some((s, tier.pick(8_000, 160_000)))
     }
     fn check(&self, case: &Case, cx: &mut Ctx) -> Verdict {
         let plans: Vec<Option<Plan>> = case.items.iter().map(|it| plan(it, cx)).collect();
